@@ -102,6 +102,7 @@ def run(run, tier):
     if sent.returncode != 0 or 'ENTROPY' in sent.stdout:
         run.violation('C18/entropy', 'a simulator consumed entropy outside random/numpy.random: %s' % (sent.stdout + sent.stderr)[-400:], {'output': (sent.stdout + sent.stderr)[-2000:]})
     from . import xc05; n_eval += xc05.part(run, tier, 'C18', props, stats) or 0
+    from . import xsis05; n_eval += xsis05.part(run, tier, 'C18', props, stats) or 0
     if not props['ok']:
         run.violation('C18/proof', 'Props/C18.v no longer checks: %s' % props['log'][-400:], {'broken': 'coq/Props/C18.v', 'log': props['log']}, no_input=True)
     C.proof_coverage(run, props, n_eval, n_eval - stats['exceptions'],
